@@ -52,6 +52,7 @@ static void runScenario(int nthreads, const std::vector<std::string> &prolog, co
   if (trace) sim::setTrace(traceFile);
   for (size_t i = 0; i < works.size(); ++i) sim::spawn(worker, &works[i]);
   sim::run(first);
+  sim::closeTrace();
   for (size_t i = 0; i < works.size(); ++i)
     for (size_t k = 0; k < works[i].results.size(); ++k) printf("WR %d %s\n", works[i].tid, works[i].results[k].c_str());
   for (size_t i = 0; i < epilog.size(); ++i) printf("ER %s\n", runOne(epilog[i]).c_str());
